@@ -358,6 +358,16 @@ def convert_inprocess(prepd, timeout=KEY_TIMEOUT):
     return run_main(v2p.main, ["volume-to-precomputed"] + prepd["argv"], timeout=timeout)
 
 
+def convert_api(prepd, plan, timeout=KEY_TIMEOUT):
+    """The function API the way a script converting several volumes in one process
+    calls it: keyword arguments, no options dictionary (default storage options)."""
+    from neuroglancer_scripts import volume_reader
+    return run_main(lambda _argv: volume_reader.volume_file_to_precomputed(
+        prepd["nii"], prepd["out"], ignore_scaling=bool(plan.get("ignore_scaling")),
+        input_min=plan.get("imin") if plan.get("imax") is not None else None,
+        input_max=plan.get("imax"), load_full_volume=not plan.get("mmap")), [], timeout=timeout)
+
+
 def convert_subprocess(prepd, timeout=KEY_TIMEOUT):
     return run_tool_subprocess("volume-to-precomputed", prepd["argv"], timeout=timeout,
                                tmpdir=prepd["dir"])
